@@ -337,6 +337,7 @@ type hstream struct {
 	nsend     int
 	unaryResp *wrapperspb.BytesValue
 	vstream   *grpctunnel.VerifStream
+	recvBuf   *wrapperspb.BytesValue // re-used receive message (see recv)
 }
 
 func unaryHandler(srv any, ctx context.Context, dec func(any) error, _ grpc.UnaryServerInterceptor) (any, error) {
@@ -374,7 +375,16 @@ func streamHandler(srv any, ss grpc.ServerStream, shape int) error {
 func (h *hstream) recv(actor string) (*OpResult, error) {
 	idx := h.nrecv
 	evInvoke(h.rpc, actor, OpRecv, idx, 0)
+	// Some applications receive every message of a stream into one value
+	// (legal: the codec resets it); which ones do follows from the plan, not
+	// from a draw, so that older replays keep their meaning.
 	m := &wrapperspb.BytesValue{}
+	if h.rpc >= 0 && h.rpc%4 >= 2 && h.ss != nil {
+		if h.recvBuf == nil {
+			h.recvBuf = &wrapperspb.BytesValue{}
+		}
+		m = h.recvBuf
+	}
 	var err error
 	if h.ss != nil {
 		err = h.ss.RecvMsg(m)
@@ -631,9 +641,20 @@ func (w *World) RunCaller(parent context.Context, cc grpc.ClientConnInterface, p
 		ctx = metadata.NewOutgoingContext(ctx, md)
 	}
 	var cancel context.CancelFunc
-	if p.Deadline > 0 {
+	// Every other plan (by its shape and sizes, not by a draw) uses the
+	// cause-carrying context constructors: the outcome of a cancelled or
+	// expired RPC must not depend on them.
+	withCause := (p.Shape+len(p.ReqSizes)+len(p.RespSizes))%2 == 1
+	switch {
+	case p.Deadline > 0 && withCause:
+		ctx, cancel = context.WithTimeoutCause(ctx, p.Deadline, errCauseExpired)
+	case p.Deadline > 0:
 		ctx, cancel = context.WithTimeout(ctx, p.Deadline)
-	} else {
+	case withCause:
+		var cc context.CancelCauseFunc
+		ctx, cc = context.WithCancelCause(ctx)
+		cancel = func() { cc(errCauseCancelled) }
+	default:
 		ctx, cancel = context.WithCancel(ctx)
 	}
 	res.CallerCtx, res.CallerCancel = ctx, cancel
@@ -717,6 +738,11 @@ func (w *World) RunCaller(parent context.Context, cc grpc.ClientConnInterface, p
 	simrt.Recv(done)
 }
 
+var (
+	errCauseCancelled = errors.New("the operator pressed stop")
+	errCauseExpired   = status.Error(codes.Unavailable, "the caller's own budget ran out")
+)
+
 func copyMD(md metadata.MD) metadata.MD { return touch.CopyMD(md) }
 
 func peerString(p *peer.Peer) string { return touch.PeerString(p) }
@@ -729,6 +755,7 @@ type cstream struct {
 	cancel  context.CancelFunc
 	nrecv   int
 	sendIdx int
+	recvBuf *wrapperspb.BytesValue // re-used receive message (see recvOne)
 }
 
 func (c *cstream) maybeCancel(actor string, i int, before bool) {
@@ -746,6 +773,13 @@ func (c *cstream) recvOne(actor string) (bool, error) {
 	simrt.Yield(simrt.ClassApp)
 	evInvoke(c.p.ID, actor, OpRecv, idx, 0)
 	m := &wrapperspb.BytesValue{}
+	if c.p.ID%2 == 1 {
+		// this caller receives every message into the same value
+		if c.recvBuf == nil {
+			c.recvBuf = &wrapperspb.BytesValue{}
+		}
+		m = c.recvBuf
+	}
 	err := c.cs.RecvMsg(m)
 	res := &OpResult{Err: err}
 	if err == nil {
